@@ -50,7 +50,7 @@ RULE = (
     "nothing, no call errs or panics, returned bytes identical). Streams: corpus; bounded-exhaustive = every allowed "
     "sequence of length <= 2 (quick) / <= 3 (thorough) over {put, tombstone, remove one id; bulk put/tombstone/remove both "
     "ids; reopen} x keyspaces {0,2} x ids {0, 2^63} with stamps descending then ascending; a random sample of the length-3 "
-    "sequences (quick); random sequences of 3-14 (quick) / 3-24 (thorough) calls over 3 keyspaces, boundary ids, payloads "
+    "sequences (quick); 250 (quick) / 2500 (thorough) random sequences of 3-14 (quick) / 3-24 (thorough) calls, each run on all four backends, over 3 keyspaces, boundary ids, payloads "
     "{empty, 1 B, 2-15 B, 4 KiB, 1 MiB (thorough)}, boundary stamps, bulk calls with repeated ids, reopen after any "
     "prefix; in half of the random cases keyspace 2 is first touched by a tombstone. non-trivial = distinct (case, result) "
     "pairs with >= 2 calls whose observations contain both a tombstone row and a live document"
